@@ -75,6 +75,25 @@ def run(res, tier, seed, shard, nshards):
             if lst:
                 res.seen((tuple(lst), x))
     res.counters["random_lists"] = n_rand
+    # long lists (beyond any small-size fast path), long runs of duplicates, ints beyond 2**53 next to floats
+    n_long = 40 if tier == "quick" else 600
+    for i in range(n_long):
+        n = rng.choice([63, 64, 65, 255, 256, 257, 1000, 1024, 4097])
+        kind = i % 4
+        if kind == 0:
+            lst = sorted(rng.uniform(-1e6, 1e6) for _ in range(n))
+        elif kind == 1:
+            lst = sorted(float(rng.randrange(0, 12)) for _ in range(n))  # long duplicate runs
+        elif kind == 2:
+            lst = sorted(rng.choice([2**53, 2**53 + 1, 2**53 + 2, float(2**53), 1e300, -(2**60)]) for _ in range(n))
+        else:
+            base = 1_614_834_367.0
+            lst = sorted(base + rng.randrange(0, 50) * 1e-6 for _ in range(n))  # timestamps one microsecond apart
+        probes = [lst[0], lst[-1], lst[n // 2], lst[0] - 1, lst[-1] + 1, rng.choice(lst), (lst[n // 3] + lst[n // 3 + 1]) / 2]
+        for x in probes:
+            _check_one(res, raw, lst, x, "long")
+            res.seen((len(lst), kind, i, x))
+    res.counters["long_lists"] = n_long
 
     # (b) in situ through a real database
     contracts.install()
